@@ -102,8 +102,22 @@ def explore(res, tag, subjects, phases=None, kind_to_key=None, derive_dep=None, 
     res.extra["subjects"] += len(subjects)
     res.extra.setdefault("subjects_run", 0)
     res.extra["subjects_run"] += done
-    if not keep:
+    if not keep or tag.startswith("thorough/"):
+        # thorough artefacts are large and never reused: sources, binaries and their object files go away with the run
+        import glob
         shutil.rmtree(os.path.join(WORK, tag), ignore_errors=True)
+        prefix = tag.replace("/", "_") + "_b"
+        for tdir in ("e3", "e3opt"):
+            base = os.path.join(TARGET, tdir, "debug")
+            for f in glob.glob(os.path.join(base, prefix + "*")) + glob.glob(os.path.join(base, "deps", prefix + "*")) + \
+                    glob.glob(os.path.join(base, ".fingerprint", prefix + "*")):
+                if os.path.isdir(f):
+                    shutil.rmtree(f, ignore_errors=True)
+                else:
+                    try:
+                        os.remove(f)
+                    except OSError:
+                        pass
     return merged
 
 
